@@ -20,6 +20,11 @@ ENC_UNREGISTER = 0x66
 ENC_RRDATA = 0x6F
 ENC_UNITDATA = 0x70
 
+# Connection-manager extended status codes for general status 0x01 (CIP Vol 1, table 3-5.29)
+CM_EXT_CODES = [0x0100, 0x0103, 0x0106, 0x0107, 0x0108, 0x0109, 0x0110, 0x0111, 0x0112, 0x0113, 0x0114, 0x0115, 0x0116, 0x0117, 0x0118, 0x0119,
+                0x011A, 0x011B, 0x0203, 0x0204, 0x0205, 0x0206, 0x0207, 0x0301, 0x0302, 0x0303, 0x0304, 0x0305, 0x0306, 0x0311, 0x0312, 0x0315,
+                0x0316, 0x0317, 0x0318, 0x0319, 0x031A, 0x031B, 0x031C, 0x031D, 0x031E, 0x0800, 0x0810, 0x0811, 0x0812, 0x0813]
+
 DEFAULT_IDENTITY = {
     "vendor": 1, "product_type": 14, "product_code": 55, "major": 32, "minor": 11,
     "status": b"\x60\x31", "serial": 0x00C0FFEE, "product_name": "1756-L83E/B",
@@ -346,7 +351,7 @@ class RefTarget:
         if not large and size != 500:
             self.audit("C10", "fo.std.size", f"standard Forward Open asks for {size} bytes, expected 500")
         accepted = self.fo_policy == "large" or (self.fo_policy == "std" and not large)
-        in_use = any(c["triple"] == (serial, vendor, orig) for c in self.connections.values())
+        in_use = any(c["triple"] == (serial, vendor, orig) for c in self.connections.values()) and not self.cfg.get("allow_duplicate_triple")
         self.fo_attempts.append(("large" if large else "std", size, accepted and not in_use))
         if not accepted:
             st, ext = self.fo_refuse
